@@ -17,7 +17,7 @@ class Contract:
 
     def __init__(self, qual, pre=None, post=None, raises=(), modifies=(), frame=None, loops=None,
                  result=None, allocates=False, params=None, assumptions=(), trusted=False, doc='',
-                 native=None, gen=None, decreases=None, props=(), defs=None):
+                 native=None, gen=None, decreases=None, props=(), defs=None, axioms=None):
         self.qual = qual
         self.pre, self.post = pre, post
         self.raises = tuple(raises)
@@ -35,6 +35,7 @@ class Contract:
         self.decreases = decreases
         self.props = tuple(props)
         self.defs = defs
+        self.axioms = axioms      # definitional facts (spec unfoldings) assumed on both sides
 
     def signature(self, eng):
         if self.params is not None:
